@@ -130,12 +130,20 @@ theorem wildcard_always (F : FloatOps) (C : Cfg) (a : Acc) (ρ : Env) (il : Bool
     mPat F C true (.wild none) il a ρ = .ok ρ := by
   simp [mPat]
 
-/-- type-hinted patterns are checks that fall through (never an error) -/
+/-- type-hinted patterns are checks that fall through (never an error).  On the tree the
+findings were recorded on the variable is written *before* the check (F-C03-8: `x = 1; match 's'`
+/ `x: Number then …` / `else x` yields `'s'`); with `requests/C03-fix-8.diff` (`typedFirst`) a
+failed check leaves the registers untouched -/
 theorem typed_id_checks (F : FloatOps) (C : Cfg) (x : Name) (t : Ty) (v : Val) (ρ : Env) (il : Bool) :
     mPat F C true (.id x (some t)) il (.direct (.tmp v)) ρ =
-      (if tyOk t v then .ok (ρ.set x v) else .fail (ρ.set x v)) := by
+      (if tyOk t v then .ok (ρ.set x v) else .fail (if C.typedFirst then ρ else ρ.set x v)) := by
   simp only [mPat, fetch, Src.rd, tyFail, fin_true]
   cases tyOk t v <;> simp
+
+theorem typed_fail_untouched_repaired (F : FloatOps) (C : Cfg) (la il : Bool) (x : Name) (t : Ty) (v : Val)
+    (ρ : Env) (hC : C.typedFirst = true) (ht : tyOk t v = false) :
+    mPat F C la (.id x (some t)) il (.direct (.tmp v)) ρ = .fail ρ := by
+  simp [mPat, fetch, Src.rd, tyFail, ht, hC]
 
 /-! ## binding exactly the named parts -/
 
@@ -562,13 +570,46 @@ theorem nonlast_alt_repaired_witness :
      isArm 0 r.out = true ∧ isInt 7 (outEnv r.out 0) = true) := by
   constructor <;> decide
 
-/-- what the code does with the bindings of a failed alternative: they stay written.
+/-- F-C03-11: what the code does with the bindings of a failed alternative: they stay written.
 `(a, 1)` against `(5, 2)` fails after `a` has received 5; the registers keep it (observable after
 the match when `a` is also a variable of the enclosing scope; the guide is silent). -/
 theorem failed_alt_writes_witness :
     let r := evalMatch F0 Cfg.recorded (.expr (.tuple [n 5, n 2])) [⟨[.one (.seq [.id 0 none, ln 1] none [])], none⟩] ρ0
     isNone r.out = true ∧ isInt 5 (outEnv r.out 0) = true ∧ isU (outEnv r.out 1) = true := by
   decide
+
+/-- F-C03-8 (recorded tree): `x = 1; match 's'` / `x: Number then …` / `else …`: the else arm runs
+with `x = 's'`; with `typedFirst` it runs with `x` untouched -/
+theorem typed_leak_witness :
+    (let r := evalMatch F0 Cfg.recorded (.expr (.str [115]))
+        [⟨[.one (.id 0 (some ⟨.number, false⟩))], none⟩, ⟨[], none⟩] (ρ0.set 0 (n 1))
+     isArm 1 r.out = true ∧ isInt 1 (outEnv r.out 0) = false) ∧
+    (let r := evalMatch F0 Cfg.repaired (.expr (.str [115]))
+        [⟨[.one (.id 0 (some ⟨.number, false⟩))], none⟩, ⟨[], none⟩] (ρ0.set 0 (n 1))
+     isArm 1 r.out = true ∧ isInt 1 (outEnv r.out 0) = true) := by
+  constructor <;> decide
+
+def isStr (bs : List Nat) : Val → Bool
+  | .str cs => cs == bs
+  | _ => false
+def isNullV : Val → Bool
+  | .null => true
+  | _ => false
+
+/-- F-C03-10: a parenthesised pattern indexes a string by *bytes* (`'hé'` has size 3; the element
+that would split `é` is Null), whereas unpacking the same string yields its characters:
+`match 'hé'` / `(a, b, rest...)` binds `a = 'h'`, `b = null`, `rest = null`; `a, b = 'hé'` gives
+`'h'`, `'é'`.  (`Decl` follows the implementation here — the byte view of `Match.view`; the two
+notions of "element" coincide exactly on ASCII strings.) -/
+theorem multibyte_string_match_vs_unpack_witness :
+    (let r := evalMatch F0 Cfg.repaired (.expr (.str [104, 195, 169]))
+        [⟨[.one (.seq [.id 0 none, .id 1 none] (some (some 2)) [])], none⟩] ρ0
+     isArm 0 r.out = true ∧ isStr [104] (outEnv r.out 0) = true ∧ isNullV (outEnv r.out 1) = true ∧
+       isNullV (outEnv r.out 2) = true) ∧
+    (match Unpack.elems (.str [104, 195, 169]) with
+     | some [a, b] => isStr [104] a && isStr [195, 169] b
+     | _ => false) = true := by
+  constructor <;> decide
 
 /-! ### non-vacuity -/
 
